@@ -17,6 +17,7 @@
 #include <algorithm>
 #include <cstdint>
 #include <cstdio>
+#include <cstdlib>
 #include <sstream>
 #include <string>
 #include <variant>
@@ -25,6 +26,8 @@
 #include "caselog.hh"
 #include "corecel/Assert.hh"
 #include "corecel/cont/Span.hh"
+#include "orange/OrangeInput.hh"
+#include "orange/OrangeParams.hh"
 #include "orange/OrangeTypes.hh"
 #include "orange/orangeinp/CsgTree.hh"
 #include "orange/orangeinp/CsgTreeUtils.hh"
@@ -48,7 +51,7 @@ char const* const kRule
       "(random DAG: <=12 surfaces with non-contiguous ids, negations, n-ary "
       "and/or of arity 0..5 with duplicate, complementary and True/False "
       "operands, operands biased to recent nodes so nesting reaches depth "
-      ">8, shared sub-DAGs, 1..4 volumes; deep right-nested chain of 6..44 "
+      ">8, shared sub-DAGs, 1..4 volumes; deep right-nested chain of 6..66 "
       "links (postfix stack depth up to and beyond LogicStack capacity); "
       "production-like shapes + negated boundary as exterior), followed by "
       "one scenario (exchange nodes with constants / equivalent joins then "
@@ -60,7 +63,16 @@ char const* const kRule
       "Non-trivial = some volume is a non-constant function that depends on "
       ">= 3 surfaces and whose DAG contains a negated join or a shared "
       "non-leaf node";
-void setup() {}
+namespace
+{
+// C10_TRACE=1: print the input of each rewrite to stderr (debugging aid for
+// crashes inside the code under test; never influences a verdict)
+bool g_trace = false;
+}  // namespace
+void setup()
+{
+    g_trace = std::getenv("C10_TRACE") != nullptr;
+}
 
 namespace
 {
@@ -292,6 +304,8 @@ struct Reach
     bool neg_nonsurf = false;  // Negated whose operand is not a Surface
     bool has_true = false;
     bool has_alias = false;
+    // Negated whose operand is an *alias* of a Joined (class of F11)
+    bool neg_alias_join = false;
     int shared = 0;  // non-leaf nodes with >= 2 parents inside the sub-DAG
     int depth = 0;  // longest path (aliases do not count)
     int nodes = 0;
@@ -333,7 +347,11 @@ Reach reach(CsgTree const& t, NodeId root)
             if (d)
             {
                 if (std::holds_alternative<Joined>(t[d]))
+                {
                     r.negjoin = true;
+                    if (d != g->node)
+                        r.neg_alias_join = true;
+                }
                 if (!std::holds_alternative<Surface>(t[d]))
                     r.neg_nonsurf = true;
             }
@@ -531,7 +549,7 @@ struct Stats
     long vols_remapped = 0;  // mapping with at least one shifted surface
     long sense_evals = 0;
     int max_postfix_depth = 0;
-    bool depth_ge32 = false;
+    bool depth_gt_cap = false;
     bool enc_with_alias = false;
 };
 
@@ -562,11 +580,18 @@ int postfix_depth(std::vector<logic_int> const& lg)
 
 // All encodings of every volume of `t`, judged against tts (truth tables of
 // the nodes of `t` computed by eval_tree).  Returns "" or a message.
+// Known finding F11: InternalSurfaceFlagger::operator()(Negated) tests
+// `tree_[n.node]` for Joined without following aliases, so not{->{all{..}}}
+// is reported "simple".  Only for partially simplified trees (public
+// CsgTree::exchange / simplify(NodeId) without a full sweep).
+char const* const kF11 = "F19-flagger-negated-alias-of-join";
+
 std::string check_encodings(CsgTree const& t,
                             std::vector<TT> const& tts,
                             Space const& sp,
                             bool infix_top_parens,
-                            Stats& st)
+                            Stats& st,
+                            std::string* finding)
 {
     // all Surface nodes of the tree (what calc_surfaces must return)
     std::vector<LocalSurfaceId> all_surf;
@@ -659,7 +684,7 @@ std::string check_encodings(CsgTree const& t,
             ++st.vols_postfix;
         }
         else
-            st.depth_ge32 = true;
+            st.depth_gt_cap = true;
 
         // ---- postfix with surface remapping (production path) ----
         {
@@ -738,6 +763,8 @@ std::string check_encodings(CsgTree const& t,
                 tt_and(g, f);
                 if (tt_any(g))
                 {
+                    if (rc.neg_alias_join)
+                        *finding = kF11;
                     return "InternalSurfaceFlagger says 'simple' but "
                            "crossing surface "
                            + std::to_string(sp.var_surf[v])
@@ -799,8 +826,13 @@ std::string check_demorgan(CsgTree const& t,
                            Space const& sp,
                            bool infix_top_parens,
                            Stats& st,
-                           bool* changed)
+                           bool* changed,
+                           std::string* finding)
 {
+    if (g_trace)
+        std::fprintf(stderr,
+                     "[c10 trace] transform_negated_joins on %s\n",
+                     tree_str(t).c_str());
     CsgTree d = transform_negated_joins(t);
     if (d.volumes().size() != t.volumes().size())
         return "transform_negated_joins changed the number of volumes";
@@ -833,7 +865,7 @@ std::string check_demorgan(CsgTree const& t,
     }
     if (changed)
         *changed = d.size() != t.size();
-    std::string e = check_encodings(d, dt, sp, infix_top_parens, st);
+    std::string e = check_encodings(d, dt, sp, infix_top_parens, st, finding);
     if (!e.empty())
         return "after transform_negated_joins: " + e + "; result "
                + tree_str(d);
@@ -971,9 +1003,19 @@ struct Gen
 
     NodeId operand()
     {
-        int k = pick8(c, {150, 90, 16});
+        int k = pick8(c, {110, 60, 6, 80});
         NodeId r;
-        if (k == 2)
+        if (k == 3)
+        {
+            // literal of a random (preferably not yet used) variable
+            int v = (next_var < sp.nvar && c.boolean(0.5))
+                        ? next_var++
+                        : int(c.index(sp.nvar));
+            r = ins_surface(v);
+            if (c.boolean(0.4))
+                r = ins_neg(r);
+        }
+        else if (k == 2)
         {
             const_operand = true;
             r = c.boolean(0.5) ? CsgTree::false_node_id()
@@ -995,7 +1037,7 @@ struct Gen
         pool.push_back(ins_surface(next_var++));
         for (int k = 0; k < nops && err.empty(); ++k)
         {
-            int kind = pick8(c, {40, 50, 75, 75, 16});
+            int kind = pick8(c, {24, 44, 75, 75, 38});
             log.mix(kind);
             NodeId r;
             if (kind == 0)
@@ -1034,7 +1076,7 @@ struct Gen
                 std::vector<NodeId> ops;
                 for (int q = 0; q < arity; ++q)
                 {
-                    int how = ops.empty() ? 0 : pick8(c, {190, 30, 36});
+                    int how = ops.empty() ? 0 : pick8(c, {222, 20, 14});
                     if (how == 1)
                     {
                         ops.push_back(ops[c.index(ops.size())]);
@@ -1051,7 +1093,9 @@ struct Gen
                 }
                 r = ins_join(kind == 2 ? op_and : op_or, std::move(ops));
             }
-            pool.push_back(r);
+            // constants are reachable as operands through operand() only
+            if (r > CsgTree::false_node_id())
+                pool.push_back(r);
         }
     }
 
@@ -1182,11 +1226,12 @@ Verdict run_case(Choices& c, CaseLog& log)
 {
     Gen g(c, log);
     Stats st;
+    std::string finding;  // key of a listed finding matched by a failure
 
     // ---- header (drawn first so that long op lists cannot starve it) ----
     int mode = pick8(c, {150, 36, 70});
     int nvar;
-    switch (pick8(c, {26, 150, 80}))
+    switch (pick8(c, {16, 156, 84}))
     {
         case 0: nvar = int(c.int_in(1, 3)); break;
         case 1: nvar = int(c.int_in(4, 8)); break;
@@ -1194,7 +1239,7 @@ Verdict run_case(Choices& c, CaseLog& log)
     }
     int stride = int(c.int_in(1, 3));
     int offset = int(c.int_in(0, 4));
-    int nops = int(c.int_in(2, 36));
+    int nops = int(c.int_in(4, 36));
     int nvol = int(c.int_in(1, 4));
     int scen = pick8(c, {24, 104, 128});
     unsigned sb[10];
@@ -1222,7 +1267,11 @@ Verdict run_case(Choices& c, CaseLog& log)
     else if (mode == 1)
     {
         log.label("mode-chain");
-        g.gen_chain(6 + (nops - 2) * 38 / 34);
+        // 40 %: stack depth (= links + 1) next to the LogicStack capacity
+        // (32 with 32-bit size_type, 64 in this host-only build)
+        int cap = int(celeritas::detail::LogicStack::max_stack_depth());
+        g.gen_chain(sb[8] < 102 ? cap - 5 + int(sb[7] % 8)
+                                : 6 + (nops - 4) * 38 / 32);
     }
     else
     {
@@ -1231,7 +1280,8 @@ Verdict run_case(Choices& c, CaseLog& log)
     }
     if (!g.err.empty())
     {
-        log.ds("tree", tree_str(g.tree));
+        if (log.want_desc)
+            log.ds("tree", tree_str(g.tree));
         return log.fail(g.err);
     }
     CsgTree& t0 = g.tree;
@@ -1241,7 +1291,25 @@ Verdict run_case(Choices& c, CaseLog& log)
         {
             NodeId n;
             int how = pick8(c, {110, 70, 60, 16});
-            if (v == 0 || how == 0)
+            if (v == 0)
+            {
+                // the node whose function depends on most surfaces (latest
+                // on ties): CSG volumes are the roots of the DAG
+                n = g.pool.back();
+                int best = -1;
+                for (size_t q = g.pool.size(); mode == 0 && q-- > 0;)
+                {
+                    int dep = 0;
+                    for (int var = 0; var < sp.nvar; ++var)
+                        dep += tt_depends(g.ttn[g.pool[q].get()], var);
+                    if (dep > best)
+                    {
+                        best = dep;
+                        n = g.pool[q];
+                    }
+                }
+            }
+            else if (how == 0)
                 n = g.pool.back();
             else if (how == 1)
                 n = g.pool[g.pool.size() - 1
@@ -1263,7 +1331,8 @@ Verdict run_case(Choices& c, CaseLog& log)
     log.d("nvar", nvar);
     log.d("surface_ids", "\"" + std::to_string(offset) + "+"
                              + std::to_string(stride) + "*v\"");
-    log.ds("tree", tree_str(t0));
+    if (log.want_desc)
+        log.ds("tree", tree_str(t0));
 
     // ---- TT0 from the stored structure; must agree with the intent ----
     std::vector<TT> tt0;
@@ -1348,9 +1417,9 @@ Verdict run_case(Choices& c, CaseLog& log)
     log.count("nodes", long(t0.size()));
 
     // ---- encodings of the freshly built tree ----
-    err = check_encodings(t0, tt0, sp, infix_top_parens, st);
+    err = check_encodings(t0, tt0, sp, infix_top_parens, st, &finding);
     if (!err.empty())
-        return log.fail("original tree: " + err);
+        return log.fail("original tree: " + err, finding);
     err = check_sense_evaluator(t0, tt0, sp, log.hash, st);
     if (!err.empty())
         return log.fail("original tree: " + err);
@@ -1358,9 +1427,10 @@ Verdict run_case(Choices& c, CaseLog& log)
     // ---- De Morgan on the alias-free tree (documented domain) ----
     {
         bool changed = false;
-        err = check_demorgan(t0, tt0, sp, infix_top_parens, st, &changed);
+        err = check_demorgan(
+            t0, tt0, sp, infix_top_parens, st, &changed, &finding);
         if (!err.empty())
-            return log.fail("original tree: " + err);
+            return log.fail("original tree: " + err, finding);
         if (changed)
             log.label("demorgan-rewrote");
     }
@@ -1398,12 +1468,47 @@ Verdict run_case(Choices& c, CaseLog& log)
         {
             log.label("scenario-exchange-simplify");
             int nx = 1 + int(sb[0] % 3);
-            NodeId minstart;
+            NodeId minstart, prev_key;
+            bool single_node_simplify = false;
             std::ostringstream what;
             for (int k = 0; k < nx; ++k)
             {
                 NodeId key = key_from(sb[1 + k], t.size());
                 unsigned how = sb[4 + k];
+                if (k > 0 && how >= 176)
+                {
+                    // public single-node simplify of the first parent of
+                    // the previously exchanged node (no full sweep)
+                    NodeId parent;
+                    for (size_t i = prev_key.get() + 1;
+                         i < t.size() && !parent;
+                         ++i)
+                    {
+                        Node const& nd = t[NodeId(i)];
+                        if (auto* ng = std::get_if<Negated>(&nd))
+                        {
+                            if (ng->node == prev_key)
+                                parent = NodeId(i);
+                        }
+                        else if (auto* jn = std::get_if<Joined>(&nd))
+                        {
+                            if (std::find(jn->nodes.begin(),
+                                          jn->nodes.end(),
+                                          prev_key)
+                                != jn->nodes.end())
+                                parent = NodeId(i);
+                        }
+                    }
+                    if (parent)
+                    {
+                        what << "CsgTree::simplify(" << parent.get() << ") ";
+                        t.simplify(parent);
+                        single_node_simplify = true;
+                        prev_key = parent;
+                        continue;
+                    }
+                }
+                prev_key = key;
                 Node const cur = t[key];
                 auto* j = std::get_if<Joined>(&cur);
                 if (j && how < 80)
@@ -1438,15 +1543,18 @@ Verdict run_case(Choices& c, CaseLog& log)
             err = compare_nodes(t, tn, tt0, mask, "exchange");
             if (!err.empty())
                 return log.fail(what.str() + ": " + err);
+            if (single_node_simplify)
+                log.label("single-node-simplify");
             if (sb[7] < 100)
             {
                 // encodings of the not yet simplified tree (aliases to
                 // constants below joins): reachable "for testing purposes"
                 log.label("encode-unsimplified");
-                err = check_encodings(t, tn, sp, infix_top_parens, st);
+                err = check_encodings(t, tn, sp, infix_top_parens, st, &finding);
                 if (!err.empty())
                     return log.fail("after " + what.str() + ": " + err
-                                    + "; tree " + tree_str(t));
+                                        + "; tree " + tree_str(t),
+                                    finding);
             }
             int var = int(sb[8] % 4);
             char const* vname = var == 0   ? "simplify(min exchanged)"
@@ -1455,6 +1563,8 @@ Verdict run_case(Choices& c, CaseLog& log)
                                            : "simplify_up x2";
             what << vname;
             log.ds("scenario", what.str());
+            if (g_trace)
+                std::fprintf(stderr, "[c10 trace] %s\n", what.str().c_str());
             if (var == 0)
                 simplify(&t, minstart);
             else if (var == 1)
@@ -1511,6 +1621,9 @@ Verdict run_case(Choices& c, CaseLog& log)
                 what << "replace_and_simplify(" << key.get() << ", "
                      << (val ? "True" : "False") << ") ";
                 log.ds(r == 0 ? "scenario" : "scenario2", what.str());
+                if (g_trace)
+                    std::fprintf(
+                        stderr, "[c10 trace] %s\n", what.str().c_str());
                 std::vector<NodeId> unknown;
                 try
                 {
@@ -1567,10 +1680,11 @@ Verdict run_case(Choices& c, CaseLog& log)
                 return log.fail("after scenario: " + err);
             // production order: calc_surfaces -> postfix with remapping ->
             // internal-surface flag, all on the rewritten tree
-            err = check_encodings(t, tn, sp, infix_top_parens, st);
+            err = check_encodings(t, tn, sp, infix_top_parens, st, &finding);
             if (!err.empty())
                 return log.fail("rewritten tree: " + err + "; tree "
-                                + tree_str(t));
+                                    + tree_str(t),
+                                finding);
             bool has_alias = false;
             for (size_t i = 2; i < t.size(); ++i)
                 has_alias = has_alias
@@ -1578,14 +1692,34 @@ Verdict run_case(Choices& c, CaseLog& log)
             if (has_alias)
                 log.label("rewritten-has-aliases");
             // De Morgan on a tree with alias nodes (exercised by the unit
-            // test transform_negated_joins_with_aliases)
-            bool changed = false;
-            err = check_demorgan(t, tn, sp, infix_top_parens, st, &changed);
-            if (!err.empty())
-                return log.fail("rewritten tree (has aliases: "
-                                + std::string(has_alias ? "yes" : "no")
-                                + "): " + err + "; input " + tree_str(t));
-            log.label("demorgan-on-rewritten");
+            // test transform_negated_joins_with_aliases).  Its documented
+            // precondition excludes double negations, which a single
+            // simplification sweep can leave behind: those trees are
+            // counted, not transformed.
+            bool double_neg = false;
+            for (size_t i = 2; i < t.size() && !double_neg; ++i)
+                if (auto* ng = std::get_if<Negated>(&t[NodeId(i)]))
+                {
+                    NodeId dn = dealias(t, ng->node);
+                    double_neg = dn && std::holds_alternative<Negated>(t[dn]);
+                }
+            if (double_neg)
+            {
+                log.label("rewritten-has-double-negation");
+            }
+            else
+            {
+                bool changed = false;
+                err = check_demorgan(
+                    t, tn, sp, infix_top_parens, st, &changed, &finding);
+                if (!err.empty())
+                    return log.fail("rewritten tree (has aliases: "
+                                    + std::string(has_alias ? "yes" : "no")
+                                        + "): " + err + "; input "
+                                        + tree_str(t),
+                                    finding);
+                log.label("demorgan-on-rewritten");
+            }
         }
     }
     catch (RuntimeError const& e)
@@ -1611,19 +1745,151 @@ Verdict run_case(Choices& c, CaseLog& log)
         log.label("surface-remapping-nontrivial");
     if (st.enc_with_alias)
         log.label("encoded-through-aliases");
-    log.label(st.max_postfix_depth <= 2    ? "postfix-depth-1-2"
-              : st.max_postfix_depth <= 8  ? "postfix-depth-3-8"
-              : st.max_postfix_depth <= 20 ? "postfix-depth-9-20"
-              : st.max_postfix_depth <= 31 ? "postfix-depth-21-31"
-              : st.max_postfix_depth == 32 ? "postfix-depth-32-capacity"
-                                           : "postfix-depth-33+-skipped");
+    {
+        int cap = int(celeritas::detail::LogicStack::max_stack_depth());
+        int d = st.max_postfix_depth;
+        log.label(d <= 2         ? "postfix-depth-1-2"
+                  : d <= 8       ? "postfix-depth-3-8"
+                  : d <= 20      ? "postfix-depth-9-20"
+                  : d < cap - 4  ? "postfix-depth-21-below-capacity"
+                  : d < cap      ? "postfix-depth-capacity-minus-1-4"
+                  : d == cap     ? "postfix-depth-eq-capacity"
+                                 : "postfix-depth-gt-capacity-skipped");
+    }
+    if (nontrivial)
+        log.label(mode == 0   ? "nontrivial-dag"
+                  : mode == 1 ? "nontrivial-chain"
+                              : "nontrivial-prod");
     log.nontrivial = nontrivial;
     return nontrivial ? Verdict::pass : Verdict::trivial;
 }
 
-bool run_exhaustive(ExhaustiveResult&)
+// Enumerated part: the production guard on the logic stack depth.
+// For every stack depth D = 1..capacity+8 and three operator patterns a volume whose
+// postfix logic needs exactly D stack entries is put into a UnitInput and
+// handed to OrangeParams.  OrangeParams must reject it iff D >=
+// LogicStack::max_stack_depth(); every accepted logic must be evaluated
+// correctly by the runtime LogicEvaluator on all 2^nf sense vectors.
+bool run_exhaustive(ExhaustiveResult& r)
 {
-    return false;
+    using celeritas::detail::LogicEvaluator;
+    using celeritas::detail::LogicStack;
+    r.scope
+        = "postfix stack depth D = 1..capacity+8 x operator pattern {all &, "
+          "all |, alternating} : OrangeParams(UnitInput) rejects iff D >= "
+          "LogicStack::max_stack_depth() (= "
+          + std::to_string(LogicStack::max_stack_depth())
+          + " in this build); accepted logic evaluated by LogicEvaluator on "
+            "all 2^10 sense vectors vs. a recursive reference";
+    int const nf = 10;
+    for (int pattern = 0; pattern < 3; ++pattern)
+    {
+        for (int D = 1; D <= int(LogicStack::max_stack_depth()) + 8; ++D)
+        {
+            // f0 f1 ... f(D-1) opD-2 ... op0  ==  f0 op0 (f1 op1 (...))
+            std::vector<logic_int> lgc;
+            std::vector<bool> neg(D);
+            for (int k = 0; k < D; ++k)
+            {
+                lgc.push_back(logic_int(k % nf));
+                neg[k] = (k * 7 + pattern) % 3 == 0;
+                if (neg[k])
+                    lgc.push_back(logic::lnot);
+            }
+            auto op_at = [&](int k) {
+                return pattern == 0   ? logic::land
+                       : pattern == 1 ? logic::lor
+                       : (k % 2)      ? logic::land
+                                      : logic::lor;
+            };
+            for (int k = D - 2; k >= 0; --k)
+                lgc.push_back(op_at(k));
+            if (postfix_depth(lgc) != D)
+            {
+                r.violated = true;
+                r.msg = "harness error: constructed depth differs";
+                return true;
+            }
+
+            UnitInput u;
+            u.label = Label{"unit"};
+            for (int k = 0; k < nf; ++k)
+                u.surfaces.emplace_back(PlaneX{double(k + 1)});
+            u.bbox = BBox{{-20, -20, -20}, {20, 20, 20}};
+            VolumeInput ext;
+            ext.label = Label{"exterior"};
+            ext.faces = {LocalSurfaceId{0}};
+            ext.logic = {0, logic::lnot};
+            ext.zorder = ZOrder::exterior;
+            VolumeInput deep;
+            deep.label = Label{"deep"};
+            for (int k = 0; k < std::min(nf, D); ++k)
+                deep.faces.push_back(LocalSurfaceId(k));
+            deep.logic = lgc;
+            deep.bbox = u.bbox;
+            deep.zorder = ZOrder::media;
+            u.volumes = {ext, deep};
+            OrangeInput inp;
+            inp.tol = Tolerance<>::from_default();
+            inp.universes.emplace_back(std::move(u));
+
+            bool rejected = false;
+            try
+            {
+                OrangeParams params(std::move(inp));
+            }
+            catch (RuntimeError const&)
+            {
+                rejected = true;
+            }
+            ++r.evaluations;
+            if (g_trace)
+                std::fprintf(stderr, "[c10 trace] D=%d pattern=%d rejected=%d\n", D, pattern, int(rejected));
+            bool expect_reject = size_t(D) >= LogicStack::max_stack_depth();
+            if (rejected != expect_reject)
+            {
+                r.violated = true;
+                r.msg = "OrangeParams "
+                        + std::string(rejected ? "rejected" : "accepted")
+                        + " a volume whose logic needs a stack of "
+                        + std::to_string(D) + " entries (capacity "
+                        + std::to_string(LogicStack::max_stack_depth()) + ")";
+                return true;
+            }
+            if (rejected)
+                continue;
+            LogicEvaluator eval_logic(make_span(lgc));
+            std::vector<Sense> senses(nf);
+            for (unsigned a = 0; a < (1u << nf); ++a)
+            {
+                for (int k = 0; k < nf; ++k)
+                    senses[k] = to_sense(bool((a >> k) & 1u));
+                bool ref = bool((a >> ((D - 1) % nf)) & 1u) != neg[D - 1];
+                for (int k = D - 2; k >= 0; --k)
+                {
+                    bool lit = bool((a >> (k % nf)) & 1u) != neg[k];
+                    ref = op_at(k) == logic::land ? (lit && ref)
+                                                  : (lit || ref);
+                }
+                if (eval_logic(make_span(senses)) != ref)
+                {
+                    r.violated = true;
+                    r.msg = "LogicEvaluator wrong at stack depth "
+                            + std::to_string(D) + " pattern "
+                            + std::to_string(pattern) + " assignment "
+                            + std::to_string(a);
+                    return true;
+                }
+            }
+            if (D >= 3)
+                ++r.nontrivial;
+            if (D + 1 == int(LogicStack::max_stack_depth()) || D == 2)
+                r.samples.push_back("depth " + std::to_string(D) + " pattern "
+                                    + std::to_string(pattern)
+                                    + ": accepted, 1024 assignments agree");
+        }
+    }
+    return true;
 }
 
 }  // namespace verif
